@@ -280,15 +280,15 @@ SRC_TOKEN = re.compile(r"\(|\)|,|(?P<j>%s)\b|ON p(?P<on>\d+) = q(?P=on)\b|USING 
     k.upper().replace(" ", r"\ ") for k in sorted(JOIN_KINDS, key=len, reverse=True)))
 
 
-def gen_items(rng, depth, normal):
-    """-> (model items, real tree list); `normal`: only shapes the parser itself produces (plain sources before the first
-    join, a group starts with a plain source)"""
+def gen_items(rng, depth, normal, top=True):
+    """-> (model items, real tree list); `normal`: only shapes the parser itself produces (at the top plain sources before
+    the first join; a group starts with one plain source, every comma inside brackets is read as a cross join)"""
     n = rng.choice([1, 1, 2, 2, 3, 4]) if not (depth == 0 and not normal and rng.random() < 0.1) else 0
     items, tree, joined = [], [], False
 
     def src():
         if depth > 0 and rng.random() < 0.3:
-            mi, ti = gen_items(rng, depth - 1, normal)
+            mi, ti = gen_items(rng, depth - 1, normal, top=False)
             if normal and len(ti) < 2:
                 return src()
             return ["group", mi], ti
@@ -300,7 +300,7 @@ def gen_items(rng, depth, normal):
 
     for i in range(n):
         plain = (i == 0) if normal else (rng.random() < 0.45)
-        if normal and i > 0 and not joined and rng.random() < 0.4:
+        if normal and top and i > 0 and not joined and rng.random() < 0.4:
             plain = True
         ms, ts = src()
         if plain:
@@ -376,7 +376,7 @@ def sources_correspondence(ctx, n):
             if bad <= 5:
                 rep.tie_break("correspondence", "Sources.fmt vs Formatter.from_", {"items": items, "tree": frm, "real": real, "model": ans})
             continue
-        if normal:
+        if normal and not (len(tree) == 1 and isinstance(tree[0], list)):   # a lone group at the top is read without its brackets
             back = R.parse_raw(f[1])
             if back[0] != "ok" or back[1].get("from") != frm:
                 rep.count("finding", "from:source-list-differs")
